@@ -241,12 +241,21 @@ TEMPLATES = [
     "size = v => len(v)\nr1 = size(l)\nlen = v => a\n[r1, size(l)]",
     "g = (len, v) => len(v)\n[g(len, l), g(w => pv, l)]",
     "x = a\ng = y => x + y\nf = x => g(zero)\nf(pv)",
+    # (15..) a NON-callable inner binding shadows an outer function also in call position (the call then fails)
+    "max(1, 2)",
+    "sum = 0\nsum([1, 2])",
+    "f = len => len([1, 2, 3])\nf(7)",
+    "[1, 2] | map(min => min(min, 5))",
+    "f = v => v\ng = f => f(1)\ng(3)",
+    # (20..) with pre-parsed definitions passed as ast_names: top-level assignments still land in the host's mapping
+    "y = a\nz = k2 + y\nz",
+    "y = a\ny += k2\ny",
 ]
 if isinstance(hlib.PARAM, dict) and "t" in hlib.PARAM:
     prewarm(TEMPLATES[hlib.PARAM["t"]])
 if isinstance(hlib.PARAM, dict) and "text" in hlib.PARAM:
     prewarm(hlib.PARAM["text"])
-prewarm("len = 7\nlen", "zz = 7\nzz", "len('abc')", "len('abcd')", "zz")
+prewarm("len = 7\nlen", "zz = 7\nzz", "len('abc')", "len('abcd')", "zz", "pv")
 
 
 def api_scope(hb: bool, hv: int, pv: int, a: int, n: int) -> None:
@@ -272,8 +281,19 @@ def api_scope(hb: bool, hv: int, pv: int, a: int, n: int) -> None:
     host_len = (lambda x: hv)
     if hb:
         names['len'] = host_len
+    if t == 15:
+        names['max'] = 10
     fn_before = dict(FUNCTIONS)
-    out = run_eval(text, names, 10**4)
+    if t >= 20:
+        from sqv.api import CACHED as _C
+        with hlib.native():
+            astn = {'k2': _C.parse("pv")}
+        try:
+            out = ('ok', _C.eval(text, names, ast_names=astn, max_ops_evaluated=10**4))
+        except Exception as e:
+            out = ('err', type(e), e)
+    else:
+        out = run_eval(text, names, 10**4)
     assert FUNCTIONS == fn_before and FUNCTIONS['len'] is len, "the builtin table was modified"
     if t == 0:
         assert out[0] == 'ok' and out[1] == (hv if hb else n), "host binding must override the builtin (and only then)"
@@ -300,6 +320,12 @@ def api_scope(hb: bool, hv: int, pv: int, a: int, n: int) -> None:
         assert out[0] == 'ok' and out[1] == [n, pv], "a parameter named like a builtin does not shadow it on a later call"
     elif t == 14:
         assert out[0] == 'ok' and out[1] == pv, "a parameter of an outer call in progress must shadow the host/top-level binding for callees (dynamic scoping)"
+    elif t in (15, 16, 17, 18, 19):
+        assert out[0] == 'err', "a non-callable inner binding did not shadow the outer function in call position (the call returned %r)" % (out[1],)
+    elif t == 20:
+        assert out[0] == 'ok' and out[1] == a + pv and names.get('y') == a and names.get('z') == a + pv, "with ast_names, top-level assignments were not written to the host's mapping"
+    elif t == 21:
+        assert out[0] == 'ok' and out[1] == a + pv and names.get('y') == a + pv, "with ast_names, a compound assignment was not written to the host's mapping"
     hlib.done()
 
 
